@@ -17,6 +17,7 @@ func init() {
 	vHarnesses["vH_C18_wf_24"] = vH_C18_wf_24
 	vHarnesses["vH_C18_wf_8_9_8_10"] = vH_C18_wf_8_9_8_10
 	vHarnesses["vH_C18_wf_8_8_16_8"] = vH_C18_wf_8_8_16_8
+	vHarnesses["vH_C18_wf_init_2chunks"] = vH_C18_wf_init_2chunks
 	vHarnesses["vH_C18_wf_8_8_resize"] = vH_C18_wf_8_8_resize
 	vHarnesses["vH_C18_trunc_8_16"] = vH_C18_trunc_8_16
 	vHarnesses["vH_C18_malformed_16"] = vH_C18_malformed_16
@@ -130,14 +131,15 @@ func vBuildStream(sizes []int, fixedTypes []int) (data []byte, types []int) {
 }
 
 // box types: 0 moov, 1 mdat, 2 moof, 3 free
-func vH_C18_wf_8_8_8()      { vC18WellFormed([]int{8, 8, 8}, []int{0, 2, 1}, 3, 64) }        // init + one chunk
-func vH_C18_wf_8_16()       { vC18WellFormed([]int{8, 16}, []int{2, 1}, 3, 64) }             // one chunk
-func vH_C18_wf_16_8()       { vC18WellFormed([]int{16, 8}, nil, 2, 64) }                     // any types
-func vH_C18_wf_12_12()      { vC18WellFormed([]int{12, 12}, []int{1, 1}, 3, 64) }            // two mdats
-func vH_C18_wf_24()         { vC18WellFormed([]int{24}, nil, 4, 64) }                        // single box, any type
-func vH_C18_wf_8_9_8_10()   { vC18WellFormed([]int{8, 9, 8, 10}, []int{2, 1, 2, 1}, 2, 64) } // two chunks
-func vH_C18_wf_8_8_16_8()   { vC18WellFormed([]int{8, 8, 16, 8}, []int{2, 1, 2, 1}, 2, 64) } // second moof as long as the first chunk
-func vH_C18_wf_8_8_resize() { vC18WellFormed([]int{8, 8}, []int{2, 1}, 2, 0) }               // buffer must grow
+func vH_C18_wf_8_8_8()        { vC18WellFormed([]int{8, 8, 8}, []int{0, 2, 1}, 3, 64) }             // init + one chunk
+func vH_C18_wf_8_16()         { vC18WellFormed([]int{8, 16}, []int{2, 1}, 3, 64) }                  // one chunk
+func vH_C18_wf_16_8()         { vC18WellFormed([]int{16, 8}, nil, 2, 64) }                          // any types
+func vH_C18_wf_12_12()        { vC18WellFormed([]int{12, 12}, []int{1, 1}, 3, 64) }                 // two mdats
+func vH_C18_wf_24()           { vC18WellFormed([]int{24}, nil, 4, 64) }                             // single box, any type
+func vH_C18_wf_8_9_8_10()     { vC18WellFormed([]int{8, 9, 8, 10}, []int{2, 1, 2, 1}, 2, 64) }      // two chunks
+func vH_C18_wf_8_8_16_8()     { vC18WellFormed([]int{8, 8, 16, 8}, []int{2, 1, 2, 1}, 2, 64) }      // second moof as long as the first chunk
+func vH_C18_wf_init_2chunks() { vC18WellFormed([]int{8, 8, 8, 8, 8}, []int{0, 2, 1, 2, 1}, 2, 64) } // init + two chunks
+func vH_C18_wf_8_8_resize()   { vC18WellFormed([]int{8, 8}, []int{2, 1}, 2, 0) }                    // buffer must grow
 
 // vC18WellFormed: for a well-formed stream and any fragmentation of the reads, the concatenated
 // callback data equals the input, a callback ends at the end of every mdat box, trailing bytes are
